@@ -6,9 +6,10 @@ tier, name = sys.argv[1], sys.argv[2]
 d = f"/verif/seeded/{name}"
 meta = json.load(open(f"{d}/meta.json"))
 props = sys.argv[3:] or [meta["property"]]
-if subprocess.run(["git", "-C", "/repo", "status", "--porcelain", "--", "src", "Cargo.toml"], capture_output=True, text=True).stdout.strip():
+REPO = os.environ.get("VERIF_REPO", "/repo")
+if subprocess.run(["git", "-C", REPO, "status", "--porcelain", "--", "src", "Cargo.toml"], capture_output=True, text=True).stdout.strip():
     sys.exit("/repo not clean")
-r = subprocess.run(["git", "-C", "/repo", "apply", f"{d}/patch.diff"])
+r = subprocess.run(["git", "-C", REPO, "apply", f"{d}/patch.diff"])
 if r.returncode != 0:
     sys.exit("patch does not apply")
 try:
@@ -20,5 +21,5 @@ try:
         meta.setdefault("detection", {})[f"{p} {tier}"] = {"result": verdict, "first_report": first}
         print(name, p, tier, verdict, first[:160])
 finally:
-    subprocess.run(["git", "-C", "/repo", "checkout", "--", "."])
+    subprocess.run(["git", "-C", REPO, "checkout", "--", "."])
 json.dump(meta, open(f"{d}/meta.json", "w"), indent=1)
